@@ -430,4 +430,163 @@ example :
   refine ⟨rfl, rfl, ?_⟩
   decide
 
+/-! ### `default` / `incomparable` repeated on a variant (round 7) -/
+
+theorem MPath.isIdent_ne (p : MPath) (a b : String) (hab : a ≠ b) (h : p.isIdent a = true) : p.isIdent b = false := by
+  unfold MPath.isIdent at *
+  split at h
+  · rename_i i hi
+    simp only [Bool.and_eq_true, Bool.not_eq_eq_eq_not, Bool.not_true, beq_iff_eq] at h
+    simp [h.2, hab]
+  · cases h
+
+theorem Default.addAttribute_flag (self b : Bool) (m : Meta) (dws : List DeriveWhere)
+    (h : Default.addAttribute self m dws = .ok b) : self = false ∧ b = true := by
+  unfold Default.addAttribute at h
+  cases m with
+  | path p =>
+    simp only [] at h
+    split at h
+    · simp at h
+    · split at h
+      · simp only [Except.ok.injEq] at h; rename_i hs _; exact ⟨by simpa using hs, h.symm⟩
+      · simp at h
+  | list p a i => simp at h
+  | nameValue p v => simp at h
+
+theorem Incomparable.addAttribute_flag (self b : Bool) (m : Meta) (dws : List DeriveWhere)
+    (h : Incomparable.addAttribute self m dws = .ok b) : self = false ∧ b = true := by
+  unfold Incomparable.addAttribute at h
+  cases m with
+  | path p =>
+    simp only [] at h
+    split at h
+    · simp at h
+    · rename_i hs
+      cases hsc : incomparableScan (dws.flatMap (·.traits)) false with
+      | error e => simp [hsc, bind, Except.bind] at h
+      | ok ic =>
+        simp only [hsc, bind, Except.bind] at h
+        split at h
+        · simp only [Except.ok.injEq] at h; exact ⟨by simpa using hs, h.symm⟩
+        · simp at h
+  | list p a i => simp at h
+  | nameValue p v => simp at h
+
+/-- What one step of the variant option loop does to the `default` and `incomparable` flags. -/
+theorem VariantAttr.addMetas_cons_flags (c : Cfg) (dws : List DeriveWhere) (nf : Bool) (m : Meta) (rest : List Meta)
+    (s : VariantAttr) :
+    Fails (VariantAttr.addMetas c dws nf (m :: rest) s) ∨
+    ∃ s', VariantAttr.addMetas c dws nf (m :: rest) s = VariantAttr.addMetas c dws nf rest s' ∧
+      (s.default = true → s'.default = true) ∧ (s.incomparable = true → s'.incomparable = true) ∧
+      (m.getPath.isIdent "default" = true → s.default = false ∧ s'.default = true) ∧
+      (m.getPath.isIdent "incomparable" = true → s.incomparable = false ∧ s'.incomparable = true) := by
+  by_cases h1 : m.getPath.isIdent "skip_inner" = true
+  · have n2 := MPath.isIdent_ne _ "skip_inner" "default" (by decide) h1
+    have n3 := MPath.isIdent_ne _ "skip_inner" "incomparable" (by decide) h1
+    simp only [VariantAttr.addMetas, h1, ↓reduceIte]
+    split
+    · exact .inl ⟨_, rfl⟩
+    · cases h : Skip.addAttribute c s.skipInner "skip_inner" dws none m with
+      | error e => exact .inl ⟨e, by simp [bind, Except.bind]⟩
+      | ok sk =>
+        exact .inr ⟨{ s with skipInner := sk }, by simp [bind, Except.bind], fun h => h, fun h => h,
+          fun h' => by simp [n2] at h', fun h' => by simp [n3] at h'⟩
+  · have h1' : m.getPath.isIdent "skip_inner" = false := by simpa using h1
+    by_cases h2 : m.getPath.isIdent "default" = true
+    · have n3 := MPath.isIdent_ne _ "default" "incomparable" (by decide) h2
+      simp only [VariantAttr.addMetas, h1', h2, Bool.false_eq_true, ↓reduceIte]
+      cases h : Default.addAttribute s.default m dws with
+      | error e => exact .inl ⟨e, by simp [bind, Except.bind]⟩
+      | ok d =>
+        obtain ⟨a, b⟩ := Default.addAttribute_flag _ _ _ _ h
+        exact .inr ⟨{ s with default := d }, by simp [bind, Except.bind], fun _ => b, fun h => h,
+          fun _ => ⟨a, b⟩, fun h' => by simp [n3] at h'⟩
+    · have h2' : m.getPath.isIdent "default" = false := by simpa using h2
+      by_cases h3 : m.getPath.isIdent "incomparable" = true
+      · simp only [VariantAttr.addMetas, h1', h2', h3, Bool.false_eq_true, ↓reduceIte]
+        cases h : Incomparable.addAttribute s.incomparable m dws with
+        | error e => exact .inl ⟨e, by simp [bind, Except.bind]⟩
+        | ok d =>
+          obtain ⟨a, b⟩ := Incomparable.addAttribute_flag _ _ _ _ h
+          exact .inr ⟨{ s with incomparable := d }, by simp [bind, Except.bind], fun h => h, fun _ => b,
+            fun h' => by simp at h', fun _ => ⟨a, b⟩⟩
+      · have h3' : m.getPath.isIdent "incomparable" = false := by simpa using h3
+        simp only [VariantAttr.addMetas, h1', h2', h3', Bool.false_eq_true, ↓reduceIte]
+        exact .inl ⟨_, rfl⟩
+
+theorem VariantAttr.addMetas_append_error (c : Cfg) (dws : List DeriveWhere) (nf : Bool) (pre rest : List Meta)
+    (h : ∀ s, Fails (VariantAttr.addMetas c dws nf rest s)) :
+    ∀ s, Fails (VariantAttr.addMetas c dws nf (pre ++ rest) s) := by
+  induction pre with
+  | nil => exact h
+  | cons m pre ih =>
+    intro s
+    rcases VariantAttr.addMetas_cons_flags c dws nf m (pre ++ rest) s with he | ⟨s', heq, _⟩
+    · exact he
+    · rw [List.cons_append, heq]; exact ih s'
+
+/-- `default` twice, or `incomparable` twice, among the options of one variant: rejected wherever they stand. -/
+theorem VariantAttr.addMetas_twice (c : Cfg) (dws : List DeriveWhere) (nf : Bool) (pre mid post : List Meta)
+    (m1 m2 : Meta) (name : String) (hname : name = "default" ∨ name = "incomparable")
+    (h1 : m1.getPath.isIdent name = true) (h2 : m2.getPath.isIdent name = true) :
+    ∀ s, Fails (VariantAttr.addMetas c dws nf (pre ++ m1 :: (mid ++ m2 :: post)) s) := by
+  apply VariantAttr.addMetas_append_error
+  intro s
+  -- the flag named `name`
+  let flag : VariantAttr → Bool := fun a => if name = "default" then a.default else a.incomparable
+  have step : ∀ (m : Meta) (rest : List Meta) (s : VariantAttr),
+      Fails (VariantAttr.addMetas c dws nf (m :: rest) s) ∨
+      ∃ s', VariantAttr.addMetas c dws nf (m :: rest) s = VariantAttr.addMetas c dws nf rest s' ∧
+        (flag s = true → flag s' = true) ∧ (m.getPath.isIdent name = true → flag s = false ∧ flag s' = true) := by
+    intro m rest s
+    rcases VariantAttr.addMetas_cons_flags c dws nf m rest s with he | ⟨s', heq, k1, k2, k3, k4⟩
+    · exact .inl he
+    · refine .inr ⟨s', heq, ?_, ?_⟩
+      · rcases hname with rfl | rfl
+        · simpa [flag] using k1
+        · simpa [flag] using k2
+      · rcases hname with rfl | rfl
+        · simpa [flag] using k3
+        · simpa [flag] using k4
+  have after : ∀ (mid : List Meta) (s : VariantAttr), flag s = true →
+      Fails (VariantAttr.addMetas c dws nf (mid ++ m2 :: post) s) := by
+    intro mid
+    induction mid with
+    | nil =>
+      intro s hs
+      rcases step m2 post s with he | ⟨s', _, _, h⟩
+      · exact he
+      · have := (h h2).1; rw [hs] at this; cases this
+    | cons x mid ih =>
+      intro s hs
+      rcases step x (mid ++ m2 :: post) s with he | ⟨s', heq, hk, _⟩
+      · exact he
+      · rw [List.cons_append, heq]; exact ih s' (hk hs)
+  rcases step m1 (mid ++ m2 :: post) s with he | ⟨s', heq, _, h⟩
+  · exact he
+  · rw [heq]; exact after mid s' (h h1).2
+
+/-- **Repeated `default` / `incomparable` on a variant.** Two `default` options, or two `incomparable` options, on one
+variant of an enum — in one attribute or spread over several, with anything in between — are rejected. -/
+theorem C15_variant_option_repeated (c : Cfg) (raw : RawItem) (v : RawVariant) (hk : raw.kind = .enum_)
+    (hv : v ∈ raw.variants) (pre mid post : List Meta) (m1 m2 : Meta) (name : String)
+    (hname : name = "default" ∨ name = "incomparable")
+    (hflat : flatMetas v.attrs = some (pre ++ m1 :: (mid ++ m2 :: post)))
+    (h1 : m1.getPath.isIdent name = true) (h2 : m2.getPath.isIdent name = true) :
+    Fails (Input.fromInput c raw) := by
+  apply Input.fromInput_fails_of_variant c raw v hv
+  · intro _ dws
+    unfold Data.fromVariant
+    refine Fails.bind_left ?_
+    rw [VariantAttr.fromAttrs_flat_some c dws _ v.attrs _ hflat]
+    exact VariantAttr.addMetas_twice c dws _ pre mid post m1 m2 name hname h1 h2 _
+  · intro h; exact absurd hk h
+  · intro h; exact absurd hk h
+
+example :
+    let d : Meta := .path ⟨false, [⟨"default", false⟩], none⟩
+    flatMetas [.list [.ofMeta d] none, .list [.ofMeta d] none] = some ([] ++ d :: ([] ++ d :: [])) ∧
+    d.getPath.isIdent "default" = true := ⟨rfl, by decide⟩
+
 end DW
